@@ -469,9 +469,13 @@ K("C01/public-glue/into", ["C01", "C06", "C19"], "movegen::verif_kani_b::c01_glu
 # `<generic::White as Color>::COLOR` to garbage inside the unstubbed do_is_cell_attacked::<White> and
 # reports "unreachable code" in Cell::from_parts - a false alarm of the tool, see DESIGN.md A)
 for _i, _g in enumerate(("gen_all", "gen_capture", "gen_simple", "gen_simple_no_promote", "gen_simple_promote")):
-    K("C01/public-glue/list/%s" % _g, ["C01", "C06", "C19"], "movegen::verif_kani_b::c01_glue_list_%s" % _g, ["movegen::semilegal::%s (macro)" % _g, "movegen::legal::%s (macro)" % _g, "movegen::UnsafeMoveList::push"],
+    K("C01/public-glue/list/%s" % _g, ["C01", "C06", "C19"], "movegen::verif_kani_c::c01_glue_list_v2_%s" % _g, ["movegen::semilegal::%s (macro)" % _g, "movegen::legal::%s (macro)" % _g, "movegen::UnsafeMoveList::push"],
       GLUE + "semilegal::%s returns what method %s pushes, as a list; legal::%s returns exactly that list filtered by the legality decision (real UnsafeMoveList and ArrayVec::retain)" % (_g, _g, _g),
-      assumes=GEN_ALL + ISLEGAL + ["C01/gen/dispatch"], timeout=2400, mem_gb=24, mem_est=10, tier="quick" if _g == "gen_all" else "thorough")
+      assumes=GEN_ALL + ISLEGAL + ["C01/gen/dispatch"], timeout=2400, mem_gb=24, mem_est=10, tier="quick")
+
+K("C01/public-glue/side-dispatch", ["C01", "C06", "C07", "C09"], "movegen::verif_kani_c::c01_glue_side_dispatch", ["movegen::semilegal::gen_*_into (macro)", "movegen::semilegal::gen_all (macro)", "movegen::legal::gen_all (macro)", "movegen::has_legal_moves", "Board::has_legal_moves", "movegen::san_candidates", "movegen::san_pawn_capture_candidates", "movegen::LegalFilter::push", "movegen::MoveGenImpl::new"],
+  GLUE + "every public wrapper runs the generator method INSTANTIATED FOR THE SIDE TO MOVE (the marker names method and colour); has_legal_moves == 'gen_for_has_legal_moves for the side to move pushed a move the legality decision accepts'; the two SAN candidate wrappers deliver exactly the accepted candidates of the side to move",
+  assumes=GEN_ALL + ISLEGAL + ["C01/gen/dispatch"], timeout=2400, mem_gb=24, mem_est=10)
 
 # obligations whose harness replaces a callee by its CONTRACT (other than the table stubs, which are
 # extensionally equal to the real tables): a native run executes the real callee instead, so a
